@@ -53,7 +53,7 @@ func runC01(p *Program, r *Report) {
 	for _, m := range []struct {
 		r string
 		n int
-	}{{"C01.R1", 12}, {"C01.R2", 9}, {"C01.R3", 4}, {"C01.R4", 1}, {"C01.R5", 12}, {"C01.R6", 6}, {"C01.R7", 8}, {"C01.R8", 1}, {"C01.R9", 7}, {"C01.R10", 2}, {"C01.R11", 1}, {"C01.R12", 15}, {"C01.R13", 1}, {"C01.R14", 3}, {"C01.R15", 5}, {"C01.R16", 3}, {"C01.R17", 1}, {"C01.R18", 1}, {"C01.R19", 3}, {"C01.R20", 1}, {"C01.R21", 2}} {
+	}{{"C01.R1", 12}, {"C01.R2", 9}, {"C01.R3", 4}, {"C01.R4", 1}, {"C01.R5", 12}, {"C01.R6", 6}, {"C01.R7", 8}, {"C01.R8", 1}, {"C01.R9", 7}, {"C01.R10", 2}, {"C01.R11", 1}, {"C01.R12", 15}, {"C01.R13", 1}, {"C01.R14", 3}, {"C01.R15", 5}, {"C01.R16", 3}, {"C01.R17", 1}, {"C01.R18", 1}, {"C01.R19", 3}, {"C01.R20", 1}, {"C01.R21", 1}} {
 		r.Min(m.r, m.n)
 	}
 	checkSpeculativeMerge(p, r, "C01.R9")
